@@ -28,8 +28,10 @@ CONSTANTS OFFBYONE,   \* TRUE: model the "fix an error seen in some PDF files"
                       \* commit 8dab642); FALSE: it is unknown
           KEYGEN0,    \* TRUE (defective variant): the reader derives the object
                       \* key with generation 0 whatever the object's generation
-          DECRYPTMEMBERS  \* TRUE (defective variant): the reader decrypts the
+          DECRYPTMEMBERS, \* TRUE (defective variant): the reader decrypts the
                       \* strings of object-stream members a second time
+          TRAILERMERGE    \* TRUE (defective variant): every section on the /Prev
+                      \* chain contributes the trailer keys not seen so far
 
 Kinds   == {"table", "stream", "hybrid"}
 OpNames == {"keep",    \* the revision does not touch the object
@@ -77,6 +79,27 @@ StateAfter(h, k) ==
 
 IsHidden(op) == op \in {"hdef", "hdefc"}
 
+\* Trailers (7.5.5, 7.5.6): every revision has a trailer of its own; the
+\* trailer of the document is the trailer of the newest revision *only*.  A
+\* revision's trailer always has /Root and /ID (the second /ID string changes
+\* with every revision); rev.tr lists (as a sequence) which of the optional
+\* keys it has: "Info" (/Info, pointing at the information dictionary this
+\* revision wrote) and "XX" (a private key, /XX_Rev).  An update whose trailer
+\* lacks a key the previous trailer had is what an older-trailer leak shows on.
+OptionalKeys == {"Info", "XX"}
+TrailerChoices == {<<>>, <<"Info">>, <<"XX">>, <<"Info", "XX">>}
+HasKey(rev, k) == k = "ID" \/ \E i \in DOMAIN rev.tr : rev.tr[i] = k
+TrOK(rev) == \A i \in DOMAIN rev.tr : rev.tr[i] \in OptionalKeys
+
+\* What GetMeta() has to report, per item the number of the revision whose
+\* value it is (0: absent): the /ID, /Info and /XX_Rev entries of the trailer
+\* dictionary, the decoded information dictionary and identifier, and the
+\* number of entries that are in no way those of the newest trailer
+RefTrailer(h) ==
+  LET L == Len(h)
+      at(k) == IF HasKey(h[L], k) THEN L ELSE 0
+  IN [ID |-> L, Info |-> at("Info"), XX |-> at("XX"), MetaInfo |-> at("Info"), MetaID |-> L, Other |-> 0]
+
 \* a revision the standard allows after the state p (the first revision gives
 \* every number an entry; a hybrid revision has something to hide)
 RevOK(p, rev, k) ==
@@ -85,7 +108,7 @@ RevOK(p, rev, k) ==
   /\ rev.kind = "hybrid" => \E n \in DOMAIN rev.ops : IsHidden(rev.ops[n])
 
 RECURSIVE HistOK(_, _)
-HistOK(h, k) == k = 0 \/ (HistOK(h, k - 1) /\ DOMAIN h[k].ops = ObjsOf(h) /\ RevOK(StateAfter(h, k - 1), h[k], k))
+HistOK(h, k) == k = 0 \/ (HistOK(h, k - 1) /\ DOMAIN h[k].ops = ObjsOf(h) /\ TrOK(h[k]) /\ RevOK(StateAfter(h, k - 1), h[k], k))
 ValidHistory(h) == Len(h) >= 1 /\ HistOK(h, Len(h))
 
 ---------------------------------------------------------------------------
@@ -100,8 +123,7 @@ RefIn(st, n, g) ==
   ELSE IF st[n].st = "used" /\ st[n].g = g THEN st[n].r ELSE 0
 RefLookup(h, n, g) == RefIn(StateAfter(h, Len(h)), n, g)
 
-\* the trailer entries reported are those of the newest revision
-RefTrailer(h) == Len(h)
+\* the trailer entries reported are those of the newest revision: RefTrailer above
 
 ---------------------------------------------------------------------------
 (* The abstract file a conforming writer produces for a history.             *)
